@@ -529,7 +529,26 @@ def make_pandas():
     return m
 
 
+def make_pyfaidx():
+    m = types.ModuleType("pyfaidx")
+
+    class Fasta:
+        def __init__(self, *a, **k):
+            raise Inconclusive("pyfaidx.Fasta is not modelled (files are outside the claim)")
+    m.Fasta = Fasta
+    return m
+
+
+def make_pybigwig():
+    m = types.ModuleType("pyBigWig")
+
+    def _open(*a, **k):
+        raise Inconclusive("pyBigWig.open is not modelled (files are outside the claim)")
+    m.open = _open
+    return m
+
+
 def standard_shims():
     torch = make_torch()
-    shims = {"torch": torch, "numpy": make_numpy(), "numba": make_numba(), "tqdm": make_tqdm(), "pandas": make_pandas()}
+    shims = {"torch": torch, "numpy": make_numpy(), "numba": make_numba(), "tqdm": make_tqdm(), "pandas": make_pandas(), "pyfaidx": make_pyfaidx(), "pyBigWig": make_pybigwig()}
     return shims
